@@ -539,7 +539,14 @@ class FuncAnalysis:
             if d.kind == "assign" and d.node is not None and (d.path == () or td[0] in ("app", "new")):
                 td = self._apply_stores(td, name, d, at, depth)
                 if isinstance(d.payload, (ast.List, ast.ListComp)) or (isinstance(d.payload, ast.Call) and isinstance(d.payload.func, ast.Name) and d.payload.func.id in ("list", "bytearray")):
-                    td = self._apply_growth(td, name, d, at, depth)
+                    growing = self.__dict__.setdefault("_growing", set())
+                    if name not in growing:
+                        # the list as it is *before* the loops that fill it when those loops mention it (len(xs) in their header)
+                        growing.add(name)
+                        try:
+                            td = self._apply_growth(td, name, d, at, depth)
+                        finally:
+                            growing.discard(name)
             alts.append(td)
         t = phi(alts)
         return self._refine(t, e, name)
@@ -586,6 +593,8 @@ class FuncAnalysis:
                     continue
                 return base
             ln = cfg.node_of(loop)
+            if at is ln:
+                continue  # the loop's own header is evaluated before the loop has added anything
             inside_at = at.stmt is not None and any(x is at.stmt for x in ast.walk(loop)) and at is not ln
             if inside_at or not (cfg.dominates(d.node, ln) and cfg.dominates(ln, at)):
                 if inside_at:
